@@ -185,6 +185,14 @@ def apply_op(o, x, aux, aux2, mask):
         return x + 1
     if op == "sum":
         return x.sum()
+    if op == "sum_kw":
+        return x.sum(dim=-1, keepdim=True)
+    if op == "clamp_kw":
+        return torch.clamp(x, min=-0.125, max=0.25)
+    if op == "gelu_kw":
+        return F.gelu(x, approximate="tanh")
+    if op == "mean_kw":
+        return torch.mean(x, dim=0)
     if op == "gelu":
         return F.gelu(x)
     if op == "contiguous":
